@@ -275,7 +275,9 @@ def random_json_value(rng, depth=0):
 
 def random_key(rng, identifiers_only=False):
     # incl. names that are also read-only properties of the node mixins (the stored value lives in the instance dict)
-    pool = ["a", "b", "id", "foo", "bar", "x1", "_p", "__q", "Name", "été", "value", "k9", "lng", "zz", "size", "height", "depth", "is_leaf", "leaves"]
+    pool = ["a", "b", "id", "foo", "bar", "x1", "_p", "__q", "Name", "été", "value", "k9", "lng", "zz", "size", "height", "depth", "is_leaf", "leaves",
+            # near misses of the reserved names
+            "child", "e", "ren", "childrens", "Children", "parents", "par"]
     if not identifiers_only:
         pool = pool + ["with space", "1abc", "a-b", "", "中", "class", "a.b", 'q"uote']
     return rng.choice(pool)
